@@ -121,7 +121,9 @@ def run(ctx):
         "cr-asbuilt3": (three, ["Fieldwise"], ["set_upd", "get"], "CommittedRead"),
     }
     for d in DEVS:
-        jobs["only-" + d] = (two, [d], ALL_PATHS, "")
+        # (the strict record-snapshot lock rv also orders setters and getters, so the per-deviation attribution
+        # of races is computed with the Fieldwise deviation on)
+        jobs["only-" + d] = (two, sorted(set([d, "Fieldwise"])), ALL_PATHS, "")
     if thorough:
         jobs["strict3"] = (three, [], ["getall", "set_new", "set_upd", "del", "idx_cold_key"], "RaceFree CommittedRead")
 
